@@ -294,8 +294,12 @@ func runC02(c *Ctx) {
 	if f := pf["deactivate"]; f != nil {
 		for _, batch := range []string{"true", "false"} {
 			c.CheckGuard("C02.G6", "parse-deactivate:suffix-equality|batch="+batch, f, Env{f.Params[2]: batch}, cmpReject("signedData.DidSuffix != schema.DidSuffix rejected", token.NEQ,
-				func(s string) bool { return strings.HasSuffix(s, "#0.DidSuffix") && strings.Contains(s, "ParseSignedDataForDeactivate") },
-				func(s string) bool { return strings.HasSuffix(s, "#0.DidSuffix") && !strings.Contains(s, "ParseSignedDataForDeactivate") }))
+				func(s string) bool {
+					return strings.HasSuffix(s, "#0.DidSuffix") && strings.Contains(s, "ParseSignedDataForDeactivate")
+				},
+				func(s string) bool {
+					return strings.HasSuffix(s, "#0.DidSuffix") && !strings.Contains(s, "ParseSignedDataForDeactivate")
+				}))
 		}
 	}
 	c.Min("C02.G6", 3)
